@@ -15,6 +15,7 @@
 #   See the License for the specific language governing permissions and
 #   limitations under the License.
 #
+import re
 from fractions import Fraction
 from io import StringIO
 from typing import Any, Iterator, Optional, Type, cast
@@ -26,6 +27,9 @@ from pysmt.walkers.generic import handles
 from pysmt.utils import quote
 from pysmt.constants import is_pysmt_fraction, is_pysmt_integer
 from pysmt.fnode import FNode
+
+# Identifiers accepted unquoted by the human-readable parser (pysmt.parsing)
+_HR_IDENTIFIER = re.compile(r"^[A-Za-z_][A-Za-z0-9_]*$")
 
 
 class HRPrinter(TreeWalker):
@@ -80,7 +84,15 @@ class HRPrinter(TreeWalker):
         self.write(")")
 
     def walk_symbol(self, formula: FNode):
-        self.write(quote(formula.symbol_name(), style="'"))
+        name = formula.symbol_name()
+        if _HR_IDENTIFIER.match(name) is None:
+            # Names such as a-b or x.y are simple symbols in SMT-LIB but
+            # not identifiers of the human-readable grammar (a-b would
+            # be read back as a subtraction): always quote them
+            name = name.replace("\\", "\\\\").replace("'", "\\'")
+            self.write("'%s'" % name)
+        else:
+            self.write(quote(name, style="'"))
 
     def walk_function(self, formula: FNode) -> Iterator[FNode]:
         yield formula.function_name()
